@@ -137,6 +137,11 @@ func (p *parser) accessIdent(pos int, id string) error {
 		if fd.IsMap() && (id == "key" || id == "value") {
 			return fmt.Errorf("%smap internal field %q may not be traversed", p.showState(pos), id)
 		}
+		// A repeated field holds a list, not a message: an element must be selected with '[' index ']'
+		// before any of its fields can be accessed.
+		if fd.IsList() {
+			return fmt.Errorf("%srepeated field %q must be indexed before accessing field %q", p.showState(pos), fd.Name(), id)
+		}
 		m = fd.Message()
 	}
 	md, ok := m.(protoreflect.MessageDescriptor)
